@@ -30,6 +30,10 @@ CHECKS = {
    technique="TLA+ spec Framing (impl-shaped multiLineReader + reference framer; TLC exhausts all streams, cuts and flush placements) bound to the code by lock-step trace validation of the real reader on the complete bounded space and by an observer spec on the real TCP listener",
    text="TLC checks on the spec, for EVERY newline-terminated stream over {record-start byte, other byte, newline} up to length 7 (thorough 8) and every sequence of read fragmentations and flushes, that the valid records equal the reference framing when no flush intervenes (FragmentationIndependent), also under any flush placement for single-line streams, and that with flushes every record start is delivered exactly once, in order, with a prefix of its lines. The real multiLineReader (through a tag-guarded accessor) is run lock-step on every (stream, labelling of each byte boundary as none/cut/cut+flush) up to length 5 (thorough 7), also with a buffer small enough to overflow: the bytes read, the records handed to the consumer and both offsets after every step must equal the spec's. The real TCP listener is driven over real TCP with bursts of tiny segments and pauses; an observer spec checks the delivered records against the reference and that flushes stay periodic (at most one per interval).",
    note="The reader gets the model's record-start test; listener timing is used only as an upper bound on the number of flushes; streams are symbolic (3 byte classes)."),
+ "C11": dict(cat="model_checking", ref="5.8", engine="packer",
+   technique="TLA+ spec Packer (TLC exhaustive: concatenation, limits, no empty chunk) bound to the real chunk makers by lock-step trace validation over the complete bounded space of write/flush schedules, chunks decoded by an independent path",
+   text="TLC exhausts all sequences of writes (sizes around the limits) and flushes for the Fluentd and the Datadog byte accounting and checks that emitted chunks concatenated with the open chunk are exactly the input, that no chunk is empty and none exceeds the limits unless a single record does. The real LogChunkMakers (Forward, PackedForward, CompressedPackedForward, Datadog; limits lowered through tag-guarded accessors) are run on every schedule up to depth 4-6 (thorough 5-8); after every step the returned chunk - decoded by generic MessagePack or gzip+JSON - must be the chunk the spec closes: same record stamps in order, count = option.size = array header, option.chunk = storage name with the output's suffix, increasing ids, the pipeline's tag, body size as modelled, within limits; and a chunk handed out earlier must stay byte-identical while the maker goes on.",
+   note="Records are synthetic MessagePack/JSON events of exact sizes carrying a stamp; chunk id order is checked by string comparison in the driver; wall clock stepping backwards (id generator) is not provoked."),
 }
 NOT_YET = {
 }
